@@ -394,9 +394,17 @@ func (c *core) fastForward(block *hg.Block, frame *hg.Frame) error {
 		return err
 	}
 
-	// Update peer-selector and validators
+	// Update peer-selector and validators. The validators must reflect the
+	// latest recorded validator-set, which can be more recent than the Frame's
+	// when a change was accepted shortly before the anchor block.
 	c.setPeers(peers.NewPeerSet(frame.Peers))
-	c.validators = peers.NewPeerSet(frame.Peers)
+	lastRound, lastPeers := -1, frame.Peers
+	for r, ps := range frame.PeerSets {
+		if r > lastRound {
+			lastRound, lastPeers = r, ps
+		}
+	}
+	c.validators = peers.NewPeerSet(lastPeers)
 
 	return nil
 }
